@@ -46,6 +46,8 @@ type Config struct {
 	// MaxRandDraws > 0: a path that takes more random draws ends there as "bound-cut" (a stated bound,
 	// e.g. string-top resampling repeats until a draw evicts a key: probability-one termination only)
 	MaxRandDraws int `json:"max_rand_draws"`
+	// YieldOnRelease: also switch goroutines right after Unlock / Signal / Broadcast (off: partial-order reduction)
+	YieldOnRelease bool `json:"yield_on_release"`
 }
 
 func (c *Config) defaults() {
@@ -405,6 +407,7 @@ func (i *Interp) runPath(prefix []Decision, solverDecs *[]Decision) (res PathRes
 	i.sched = nil
 	i.curG = nil
 	i.files = nil
+	i.timerOf = map[*value]*vtimer{}
 	defer func() {
 		r := recover()
 		i.killGoroutines()
